@@ -294,6 +294,33 @@ NOT_YET = {
 PROPS = [json.loads(l)["id"] for l in (ROOT / "properties.jsonl").read_text().splitlines() if l.strip()]
 
 
+# families added after the seeded-change rounds 2 and 3 (DESIGN.md 9.7); appended to the level text
+ADDED = {
+    "C02": "The library's result record (from_packing_and_end_result, defaults) of the first packing of each case must "
+           "carry the same seven values and declared bounds.",
+    "C03": "Further observables: the three bin bounds every PackingResult carries, directly and inside the records "
+           "derived for the witness packings (repeating instance names; a record that rejects a feasible packing is a "
+           "verdict). Constructors of very large bins run under a wall clock.",
+    "C05": "Caller-supplied lower bound / range multiplier, shipped instances with their published bounds, 127..400 cities.",
+    "C06": "127..300 cities.",
+    "C07": "The domain of the property (GamePlanSpace.validate vs WellShaped: values just outside -n..n, wrong shapes, "
+           "foreign dtype/instance); the limits stored by the instance vs the constructor arguments; 32..130 teams.",
+    "C08": "32..130 teams.",
+    "C09": "Caller-supplied (valid, TLC-rechecked) bounds; shipped instances with their own bounds.",
+    "C10": "multi_run_ode (order, running index, group budgets, merit/time of that simulation) and the ResultsLog table; "
+           "adaptive wall-clock guards.",
+    "C12": "Bin-packing runs also on own instances (generated, turned by 90 degrees, full-height items) with each "
+           "encoding; a run that does not end normally is a verdict.",
+    "C13": "Also every controller family, the system equations, the simulation kernels, the swap distance and the real "
+           "EA/FEA solve loops under bounds checking.",
+    "C15": "31..129 teams.",
+    "C16": "Predefined laws at their exact points; the make_ann cache (confusable architectures).",
+    "C17": "Decode calls under a wall clock; another vector decoded into a used receiver must deliver that vector's instance.",
+    "C19": "Synthetic result/statistics tables (fractional and infinite bounds, 1..3 kinds of bin bounds), 2DPackLib "
+           "files, packings through real log files of own instances.",
+}
+
+
 def main() -> None:
     checks = []
     for pid in PROPS:
@@ -307,7 +334,9 @@ def main() -> None:
             "evidence_file": f"/verif/evidence/{pid}.json",
             "replay_cmd_template": f"./check {pid} --replay {{path}}",
             "engine": "tlc",
-            "level_claimed": {"category": c["category"], "text": c["text"], "design_ref": c["design_ref"]},
+            "level_claimed": {"category": c["category"],
+                              "text": c["text"] + ((" Added later: " + ADDED[pid]) if pid in ADDED else ""),
+                              "design_ref": c["design_ref"]},
             "level_note": c["note"],
             "technique": c["technique"],
         })
